@@ -94,7 +94,7 @@ def main():
     if getattr(P, "USES_SYMNP", False) and not a.only:
         # model-conformance gate (DESIGN 2.3): the NumPy model must agree with real NumPy on the repo's own suites
         def _gate():
-            rc, so, se = _run([PY, "-W", "ignore", "-m", "vt.conformance", "gate"], {}, 900)
+            rc, so, se = _run([PY, "-W", "ignore", "-m", "vt.conformance", "gate"], {}, 3600)
             try:
                 return json.loads(so[so.index("{"):])
             except Exception:
